@@ -8,6 +8,11 @@ use std::io::{BufRead, Write};
 
 mod p_config;
 mod sim;
+mod p_snapxfer;
+mod p_lease;
+mod p_scan;
+mod p_ttl;
+mod p_watch;
 mod p_leaderq;
 mod p_cluster;
 mod p_engine;
@@ -42,6 +47,14 @@ fn dispatch(probe: &str, rt: &tokio::runtime::Runtime, case: Value) -> Value {
         "leaderq" => p_leaderq::run(rt, case),
         "readroute" => p_leaderq::readroute(rt, case),
         "readroute_embedded" => p_leaderq::readroute_embedded(rt, case),
+        "watch" => p_watch::run(rt, case),
+        "ttl" => p_ttl::run(rt, case),
+        "ttl_sample" => p_ttl::sample(rt, case),
+        "scan" => p_scan::run(rt, case),
+        "scan_race" => p_scan::race(rt, case),
+        "lease_ds" => p_lease::ds(case),
+        "lease_cluster" => p_lease::cluster(rt, case),
+        "snapxfer" => p_snapxfer::run(rt, case),
         "majority" => p_buflog::majority(rt, case),
         _ => Value::String(format!("unknown probe {probe}")),
     }
